@@ -10,7 +10,7 @@ Leak     a second scenario built identically but writing only the gated attribut
 import os, shutil, tempfile, warnings, random
 
 from harness import c1516_base as B
-from harness.c1516_worker import Canon, nat_list
+from harness.c1516_worker import Canon, nat_list, expected_member
 
 SENT = 4242
 
@@ -97,11 +97,22 @@ def build(version, vt, write_filter, T, types_e, types_c, do_none=True):
     through the public API when write_filter(cls, attr) says so. Returns (scenario, access, observations)."""
     from AoE2ScenarioParser.datasets.players import PlayerId
     scn = B.live(version, vt["has_default_scenario"])
+    problems = []
+
+    def attempt(what, fn):
+        try:
+            with warnings.catch_warnings():
+                warnings.simplefilter("ignore")
+                return fn()
+        except Exception as e:      # noqa
+            problems.append((what, f"{type(e).__name__}: {str(e)[:160]}", B.err_kind(e)))
+            return None
     trig = scn.trigger_manager.add_trigger("c15")
-    eff = trig.new_effect.none()
-    cond = trig.new_condition.none()
-    unit = scn.unit_manager.add_unit(player=PlayerId.ONE, unit_const=4, x=1.5, y=1.5)
+    eff = attempt("new_effect.none()", lambda: trig.new_effect.none())
+    cond = attempt("new_condition.none()", lambda: trig.new_condition.none())
+    unit = attempt("unit_manager.add_unit(...)", lambda: scn.unit_manager.add_unit(player=PlayerId.ONE, unit_const=4, x=1.5, y=1.5))
     acc = Access(scn, trig, eff, cond, unit, str_attrs=string_attrs(T))
+    acc.problems = problems
     obs = {}
     for c in T["links"]["classes"]:
         for l in c["links"]:
@@ -109,8 +120,8 @@ def build(version, vt, write_filter, T, types_e, types_c, do_none=True):
                 continue
             key = f"{c['name']}.{l['name']}"
             tg = acc.target(c["name"], l["name"], l["dest"])
-            if tg is None:
-                obs[key] = None
+            if tg is None or tg[1] is None:
+                obs[key] = None if tg is None else {"kind": "no-object"}
                 continue
             kind, obj, attr, val = tg
             o = {"kind": kind, "value": val}
@@ -159,6 +170,13 @@ def run_c15(version, tier, seed, escalate, T):
         scn, acc, obsA = build(version, vt, lambda cls, l: True, T, None, None)
         fA = os.path.join(tmp, "a", "x.aoe2scenario")
         save_err = None
+
+        def report_problems(a, phase):
+            for what, msg, k in getattr(a, "problems", []):
+                violations.append({"signature": {"clause": "create-fails", "call": what, "error": k, "phase": phase},
+                                   "what": f"v{version} ({phase}): {what} raised {msg} although the version has it",
+                                   "replay": {"version": version, "op": "create", "call": what, "phase": phase}})
+        report_problems(acc, "fresh process")
         culprits = set()
         rebuilt = False          # observations taken after some file was re-loaded in this process: nothing is "fresh" any more
         try:
@@ -166,6 +184,7 @@ def run_c15(version, tier, seed, escalate, T):
         except Exception as e:      # noqa
             # which single attribute makes the save / re-load fail?  (each one alone, in a fresh scenario)
             first = f"{type(e).__name__}: {str(e)[:200]}"
+            rebuilt = True
 
             def fails(pred):
                 s1, _, o1 = build(version, vt, pred, T, None, None, do_none=False)
@@ -174,8 +193,14 @@ def run_c15(version, tier, seed, escalate, T):
                     return None, o1
                 except Exception as e1:     # noqa
                     return f"{type(e1).__name__}: {str(e1)[:160]}", o1
-            for c in T["links"]["classes"]:
-                gl = [l for l in c["links"] if l["support"] is not None]
+            base_err, _ = fails(lambda cls, ll: False)
+            if base_err is not None:
+                # the scenario cannot be saved / re-loaded even when no gated attribute is touched
+                violations.append({"signature": {"clause": "save-fails", "attribute": "(none touched)", "version": version},
+                                   "what": f"v{version}: a scenario with one trigger (one effect, one condition) and one unit cannot be saved and re-loaded: {' '.join(base_err.split())[:300]}",
+                                   "replay": {"version": version, "op": "gated-save", "touched": []}})
+            for c in ([] if base_err is not None else T["links"]["classes"]):
+                gl = [l for l in c["links"] if l["support"] is not None and (obsA.get(f"{c['name']}.{l['name']}") or {}).get("wval") == "ok"]
                 if not gl or fails(lambda cls, ll: cls == c["name"])[0] is None:
                     continue
                 for l in gl:
@@ -185,10 +210,10 @@ def run_c15(version, tier, seed, escalate, T):
                         culprits.add(only)
                         key = f"{only[0]}.{only[1]}"
                         val = (o1.get(key) or {}).get("value")
-                        violations.append({"signature": {"clause": "save-fails", "attribute": key, "version": version, "exists_in_structure": exists(c["name"], l)},
+                        violations.append({"confirmed": True,       # seen twice: in the joint save and alone in a fresh scenario
+                                           "signature": {"clause": "save-fails", "attribute": key, "version": version, "exists_in_structure": exists(c["name"], l)},
                                            "what": f"v{version}: after assigning {val!r} to {key} the scenario cannot be saved and re-loaded: {err1}",
                                            "replay": {"version": version, "op": "gated-one", "attribute": key, "value": repr(val)}})
-            rebuilt = True
             scn, acc, obsA2 = build(version, vt, lambda cls, l: (cls, l["name"]) not in culprits, T, None, None)
             for k2, v2 in obsA2.items():
                 if v2 is not None and v2.get("wval") == "skipped-by-control":
@@ -198,7 +223,9 @@ def run_c15(version, tier, seed, escalate, T):
                 scnB = B.save_reload(scn, fA)
             except Exception as e2:     # noqa
                 save_err, scnB = (first if not culprits else f"{type(e2).__name__}: {str(e2)[:200]}"), None
-        scn0, _, _ = build(version, vt, lambda cls, l: exists(cls, l) and (cls, l["name"]) not in culprits, T, None, None)
+        scn0, acc0, _ = build(version, vt, lambda cls, l: exists(cls, l) and (cls, l["name"]) not in culprits, T, None, None)
+        if not getattr(acc, "problems", []):
+            report_problems(acc0, "after a re-load")
         f0 = os.path.join(tmp, "b", "x.aoe2scenario")
         try:
             B.save_reload(scn0, f0)
@@ -222,18 +249,22 @@ def run_c15(version, tier, seed, escalate, T):
                 o = obsA[key]
                 ex = exists(c["name"], l)
                 replay = {"version": version, "op": "gated", "attribute": key}
-                if o is None:
-                    cases.append({"cmd": f"link {vh} {c['name']} {l['name']}", "obs": "uncovered-by-harness", "key": f"{version}:{key}",
-                                  "nontrivial": False, "tags": ["gated:uncovered"]})
+                if o is None or o.get("kind") == "no-object":
+                    cases.append({"cmd": f"link {vh} {c['name']} {l['name']}", "obs": "uncovered-by-harness" if o is None else f"reach=1 kind={l['kind'][0]} gated=1 supports={int(ex)} exists={int(ex)}",
+                                  "key": f"{version}:{key}", "nontrivial": False, "tags": ["gated:uncovered" if o is None else "gated:no-object"]})
                     continue
                 # phase B: re-read
                 rr, rv = ("error", None)
                 if accB is not None:
                     tg = accB.target(c["name"], l["name"], l["dest"])
                     kind, obj, attr, val = tg
+                    if obj is None:
+                        kind = "missing"
                     with warnings.catch_warnings():
                         warnings.simplefilter("ignore")
-                        if kind == "direct":
+                        if kind == "missing":
+                            rr, rv = "error", None
+                        elif kind == "direct":
                             rr, rv = classify_read(lambda: getattr(obj, attr))
                         else:
                             rr, rv0 = classify_read(lambda: getattr(obj[0], attr[0]))
@@ -298,7 +329,7 @@ def run_c15(version, tier, seed, escalate, T):
         for kind, hkey, enum, new_attr, tkey in (("e", "effect_helpers", "EffectId", "new_effect", "effects"),
                                                   ("c", "condition_helpers", "ConditionId", "new_condition", "conditions")):
             ids = {t["id"] for t in vt[tkey]}
-            by_const = {h["const"]: h for h in H[hkey] if not h["deprecated"]}
+            by_const = {expected_member(h, H[hkey]): h for h in H[hkey] if not h["deprecated"]}     # by NAME, not by forwarded constant
             trig = scnT.trigger_manager.add_trigger("types-" + kind)
             for name, ty in H["enums"][enum].items():
                 h = by_const.get(name)
@@ -367,7 +398,8 @@ def run_c15(version, tier, seed, escalate, T):
                 todo = rng.sample(todo, min(len(todo), 6 * (3 if escalate else 1)))
             for k, ty in todo:
                 name = next(n for n, v in H["enums"]["EffectId" if k == "e" else "ConditionId"].items() if v == ty)
-                h = next(h for h in H["effect_helpers" if k == "e" else "condition_helpers"] if h["const"] == name and not h["deprecated"])
+                hl = H["effect_helpers" if k == "e" else "condition_helpers"]
+                h = next(h for h in hl if not h["deprecated"] and expected_member(h, hl) == name)
                 try:
                     s1 = B.live(version, True)
                     tr = s1.trigger_manager.add_trigger("one")
